@@ -345,11 +345,15 @@ impl StateMonitor {
                     own.edges.push((*id, *p));
                 }
             }
+            // the same result described by the SOURCE facts: every kept record with its source direct terms
+            // that were retained
+            let mut own_src = FactSet::default();
             for k in 0..3 {
                 for (rid, r) in &obs.recs[k] {
                     own.recs[k].push(crate::facts::RecFact { id: *rid, name: r.name.clone(), terms: r.terms.clone() });
                     // every kept record lists exactly its source direct terms that were retained
                     let exp: Vec<u32> = m.direct[k].get(rid).map(|d| d.iter().copied().filter(|t| obs.terms.contains_key(t)).collect()).unwrap_or_default();
+                    own_src.recs[k].push(crate::facts::RecFact { id: *rid, name: r.name.clone(), terms: exp.clone() });
                     if self.prop == "C02" {
                         out.check(r.terms == exp, "C02", &format!("{}_terms/sub_ontology", KIND_NAMES[k]), || {
                             format!("{} {rid} in sub_ontology({root}, {leaves:?}) lists {:?}; its source direct terms among the retained terms are {exp:?}", KIND_NAMES[k], r.terms)
@@ -368,6 +372,13 @@ impl StateMonitor {
                             out.check(obs.recs[k].contains_key(rid), "C02", &format!("{}_record_dropped/sub_ontology", KIND_NAMES[k]), || {
                                 format!("{} {rid} is directly annotated to the retained phenotype term(s) {hit:?} but is missing in sub_ontology({root}, {leaves:?})", KIND_NAMES[k])
                             });
+                        } else {
+                            // ... and a record that touches the result only in modifier terms (or not at all) is not
+                            // part of it: no term of the result is linked to a record through a modifier term alone
+                            out.check(!obs.recs[k].contains_key(rid), "C02", &format!("{}_record_without_phenotype_term/sub_ontology", KIND_NAMES[k]), || {
+                                let touched: Vec<u32> = direct.iter().copied().filter(|t| obs.terms.contains_key(t)).collect();
+                                format!("{} {rid} is in sub_ontology({root}, {leaves:?}) although its retained direct terms {touched:?} are all modifier terms (roots {:?})", KIND_NAMES[k], m.modifier_roots)
+                            });
                         }
                     }
                 }
@@ -382,6 +393,20 @@ impl StateMonitor {
                 self.c02_extra(&om, &own, out);
             } else {
                 self.c03_checks(&om, &obs, out);
+                // IC against the result's own records: a term that one of the result's records lists as
+                // direct term (or an ancestor of such a term) counts that record
+                own_src.terms = own.terms.clone();
+                own_src.edges = own.edges.clone();
+                let osm = Model::new(&own_src, false);
+                for (id, t) in &obs.terms {
+                    for k in 0..3 {
+                        for (what, exp) in [("the result's own records", om.ic(k, *id)), ("the kept records with their retained source terms", osm.ic(k, *id))] {
+                            out.check(crate::observe::ic_close(t.ic[k], exp), "C03", &format!("ic_{}/sub_ontology", KIND_NAMES[k]), || {
+                                format!("term {id} in sub_ontology({root}, {leaves:?}): {} IC {}, -ln(n/N) from {what} = {exp}", KIND_NAMES[k], t.ic[k])
+                            });
+                        }
+                    }
+                }
             }
             return;
         }
@@ -664,7 +689,15 @@ impl StateMonitor {
             out.bucket("missing_root/ontology_without_any_term");
         }
         f.terms.retain(|t| !drop.contains(&t.id));
-        f.edges.retain(|(c, p)| !drop.contains(c) && !drop.contains(p));
+        // half of the time the remaining terms still NAME the missing root as their parent (a file from
+        // which only the root's own stanza / record was lost)
+        let keep_dangling = variant % 5 < 3 && rng.chance(1, 2);
+        if keep_dangling {
+            out.bucket("missing_root/still_referenced_as_parent");
+            f.edges.retain(|(c, _)| !drop.contains(c));
+        } else {
+            f.edges.retain(|(c, p)| !drop.contains(c) && !drop.contains(p));
+        }
         for k in 0..3 {
             for r in &mut f.recs[k] {
                 r.terms.retain(|t| !drop.contains(t));
@@ -823,6 +856,7 @@ impl Monitor for StateMonitor {
                     "missing_root/bytes_v3",
                     "missing_root/jax",
                     "missing_root/ontology_without_any_term",
+                    "missing_root/still_referenced_as_parent",
                     "obtained/clone",
                     "obtained/clone_from",
                     "obtained/minimal_then_set_default_calls",
